@@ -15,7 +15,14 @@ use simcore::driver::CaseReport;
 pub enum POp {
     Set { f: usize, text: String },
     Remove { f: usize },
-    Config { v: u32 },
+    /// `by_clone`: the new configuration is a clone of the one in force with the runtime section
+    /// of variant `v` copied over (how API users and the test helpers change a setting), instead
+    /// of a configuration deserialized afresh (how the server does after reading the files)
+    Config {
+        v: u32,
+        #[serde(default)]
+        by_clone: bool,
+    },
     /// set the identical text again (what didOpen / didSave of an unchanged file does)
     Resubmit { f: usize },
     /// set every live file again with its identical text (what a workspace reload does after a
@@ -133,7 +140,7 @@ pub fn generate(seed: u64) -> ParseSpec {
             }
             1 => ops.push(POp::Remove { f: r.usize_below(nfiles) }),
             2 => {
-                ops.push(POp::Config { v: r.below(12) as u32 });
+                ops.push(POp::Config { v: r.below(12) as u32, by_clone: r.chance(1, 3) });
                 // the server re-sets every file after a configuration change; half of the time
                 // the history does the same, sometimes only for one file
                 match r.below(4) {
@@ -206,9 +213,18 @@ fn judge(spec: &ParseSpec) -> (Vec<(String, String)>, String, BTreeMap<String, u
                 model[*f] = None;
                 *counters.entry("op.remove".into()).or_insert(0) += 1;
             }
-            POp::Config { v } => {
+            POp::Config { v, by_clone } => {
                 cfg_v = *v;
-                analysis.update_config(Arc::new(emmyrc_variant(cfg_v)));
+                let target = emmyrc_variant(cfg_v);
+                let rc = if *by_clone {
+                    let mut e = (*analysis.get_emmyrc()).clone();
+                    e.runtime = target.runtime.clone();
+                    *counters.entry("op.config_by_clone_and_modify".into()).or_insert(0) += 1;
+                    e
+                } else {
+                    target
+                };
+                analysis.update_config(Arc::new(rc));
                 *counters.entry("op.config".into()).or_insert(0) += 1;
             }
             POp::Resubmit { f } => {
